@@ -302,4 +302,124 @@ theorem state_scanned_words_follow_c11 (d : Dump) (ts : List Thread) (s : State)
     intro sf hsf r csf fr hrel hb hfr
     exact ((hiff k h0 hk).2 m sf hm hsf r csf fr hrel hb hfr).mp hok
 
+/-! ## 5. non-vacuity: `cfiDump` (C14.lean) — an amd64 Linux dump, one thread, module `mod` at
+    0x400000 with a symbol file (FUNC `f` @ 0x100 +0x300, its STACK CFI record), stack region A -/
+
+/-- the supplier's symbol file for `mod` -/
+def cfiSf : Walk.SymFile :=
+  { funcs := [⟨0x100, 0x300, 0, "f"⟩],
+    cfis := [⟨0x100, 0x300, ".cfa: $rsp 16 + .ra: .cfa -8 + ^", []⟩] }
+
+def cfiThread : Thread :=
+  { walkThread with ctx := some ⟨0x400100, 0x10008, 0x10010, [("rbx", 7), ("r12", 9)]⟩ }
+
+theorem cfi_world : worldOf cfiDump = { mods := [⟨0x400000, 0x1000, "mod"⟩], syms := [some cfiSf] } := by
+  rfl
+
+theorem cfi_modTable : Walk.modTable (worldOf cfiDump).mods = [(⟨0x400000, 0x400fff⟩, 0)] := by
+  rw [cfi_world]
+  simp [Walk.modTable, RangeMap.safeVec, RangeMap.sortOpt, RangeMap.validOnly, RangeMap.pass, RangeMap.keep,
+    RangeMap.mkRange, List.zipIdx, U64MAX]
+
+theorem cfi_funcTable : Walk.funcTable cfiSf = [(⟨0x100, 0x3ff⟩, 0)] := by
+  unfold Walk.funcTable RangeMap.safeVecP RangeMap.sortEntries
+  simp [cfiSf, RangeMap.mkRange, U64MAX, RangeMap.pass, RangeMap.keep]
+
+theorem cfi_fill : Walk.fillSymbol cfiSf (Walk.funcTable cfiSf) 0x400000 0x400100 = some ⟨"f", 0x400100, 0⟩ := by
+  rw [cfi_funcTable]
+  decide
+
+/-- every hypothesis set of §1–§4 is inhabited by `cfiDump`: it yields a state, has no STACK WIN
+    record (`mkEnv` branch), its context records have `u64` registers, thread 0 starts from its own
+    context with region A selected -/
+theorem cfi_hyps :
+    cfiDump.threads = some [cfiThread] ∧ Walk.noWins (winsOf cfiDump) = true ∧ DumpRegsOk cfiDump ∧
+    startCtx cfiDump cfiThread = some ⟨0x400100, 0x10008, 0x10010, [("rbx", 7), ("r12", 9)]⟩ ∧
+    selectMem (memoryList cfiDump) cfiThread (some 0x10008) = some regionA ∧
+    (∀ e ∈ cfiDump.syms, ∀ w ∈ e.2.2, w.size < 2 ^ 32) ∧ (∀ e ∈ cfiDump.syms, e.2.2.length ≤ 2 ^ 64) := by
+  refine ⟨rfl, by decide, ⟨?_, ?_⟩, by decide, by rfl, ?_, ?_⟩
+  · intro e c he; cases he
+  · intro ts hts t ht c hc
+    cases hts
+    simp only [List.mem_singleton] at ht
+    subst ht
+    cases hc
+    exact ⟨by decide, by decide, by decide, by decide⟩
+  · intro e he w hw
+    simp only [cfiDump, List.mem_singleton] at he
+    subst he
+    cases hw
+  · intro e he
+    simp only [cfiDump, List.mem_singleton] at he
+    subst he
+    decide
+
+/-- **the composition theorems instantiated on `cfiDump`**: the state exists; call stack 0
+    satisfies C05's `WF` on region A and has at most 0x40 + 2 frames (`state_stacks_wf_bound`); its
+    first frame is the context frame at 0x400100, lies in module 0 and carries `f @ 0x400100 / 0`
+    (computed on the walker model's tables); and `state_function_is_c11` yields C11's side: the
+    canonical record list of the supplier's file builds, C11's `fill_symbol` answers at
+    (0x400000, 0x400100), and its function is name `[102]` (= "f"), base 0x400100, parameter size 0 -/
+example : ∃ s, index cfiDump = .state s ∧ ∃ (h2 : 0 < s.stacks.length),
+    Walk.WF .amd64 (Walk.usedMem (walkMem cfiDump (some regionA)))
+      (toCtx 9 ⟨0x400100, 0x10008, 0x10010, [("rbx", 7), ("r12", 9)]⟩) (s.stacks[0].frames.map (·.f)) ∧
+    s.stacks[0].frames.length ≤ 0x40 + 2 ∧
+    ∃ x, x ∈ s.stacks[0].frames ∧ x.f.trust = .context ∧ x.f.instruction = 0x400100 ∧
+      x.f.module = some 0 ∧ x.f.func = some ⟨"f", 0x400100, 0⟩ ∧
+      ∃ csf fr, Symbolize.build (recsOfW cfiSf []) = .ok csf ∧
+        Symbolize.fillSymbol csf 0x400000 0x400100 = .ok fr ∧ fr.fn = some ([102], 0x400100, 0) := by
+  obtain ⟨hth, hn, hregs, hstart, hsel, hsz, hlen⟩ := cfi_hyps
+  obtain ⟨s, hs⟩ := index_total cfiDump [cfiThread] hth
+  have hl := (stack_at cfiDump [cfiThread] s hth hs).1
+  have h2 : 0 < s.stacks.length := by rw [hl]; decide
+  have h1 : 0 < [cfiThread].length := by decide
+  refine ⟨s, hs, h2, ?_⟩
+  obtain ⟨hwf, hb⟩ := state_stacks_wf_bound cfiDump [cfiThread] s hth hs 0 h1 h2 _ hstart
+  have hsel' : selectMem (memoryList cfiDump) [cfiThread][0] (some 0x10008) = some regionA := hsel
+  simp only [hsel'] at hwf hb
+  refine ⟨hwf, hb, ?_⟩
+  -- the first frame
+  obtain ⟨f0, rest, hfs, ht, hc, hi⟩ := hwf.head
+  have hx0 : f0 ∈ s.stacks[0].frames.map (·.f) := by rw [hfs]; exact List.mem_cons_self
+  obtain ⟨x, hx, rfl⟩ := List.mem_map.mp hx0
+  have hi' : x.f.instruction = 0x400100 := hi
+  -- it is symbolised in the environment of the walk
+  have hw := stacks_are_walks cfiDump [cfiThread] s hth hs 0 h1 h2
+  have hstart' : startCtx cfiDump [cfiThread][0] = some ⟨0x400100, 0x10008, 0x10010, [("rbx", 7), ("r12", 9)]⟩ := hstart
+  rw [hstart'] at hw
+  simp only at hw
+  have hmem := mem_of_map_eq hw x hx
+  obtain ⟨s1, s2⟩ := Walk.walk_symbolised _ _ _ x.f hmem
+  rw [(env_spec cfiDump _).2.2.1 hn] at s1 s2
+  have e : ∀ mem0, (Walk.mkEnv .amd64 .other (worldOf cfiDump) mem0).symb 0x400100 =
+      (some 0, Walk.fillSymbol cfiSf (Walk.funcTable cfiSf) 0x400000 0x400100) := by
+    intro mem0
+    show Walk.symbOf (worldOf cfiDump) (Walk.modTable (worldOf cfiDump).mods) _ 0x400100 = _
+    rw [cfi_modTable, cfi_world]
+    rfl
+  have ea : (unwinderOf cfiDump.arch).getD .x86 = .amd64 := by decide
+  have eo : walkOs (Os.ofPlatformId cfiDump.platformId) = .other := by decide
+  rw [ea, eo, hi', e] at s1 s2
+  simp only [Option.isSome_some, if_true, cfi_fill] at s2
+  refine ⟨x, hx, ht, hi', s1, s2, ?_⟩
+  obtain ⟨k, m, sf, wins, csf, fr, a1, a2, a3, a4, a5, a6⟩ :=
+    state_function_is_c11 cfiDump [cfiThread] s hth hs hsz hlen 0 h1 h2 x hx _ s2 (by rw [hi']; decide)
+  rw [s1] at a1
+  cases a1
+  have hm0 : s.modules[0]? = some ⟨0x400000, 0x1000, "mod"⟩ := by
+    rw [(modules_mirror cfiDump [cfiThread] s hth hs).1]
+    decide
+  rw [hm0] at a2
+  cases a2
+  have hl0 : cfiDump.syms.lookup "mod" = some (cfiSf, []) := by rfl
+  rw [hl0] at a3
+  cases a3
+  rw [hi'] at a5
+  exact ⟨csf, fr, a4, a5, a6⟩
+
+/-- §2's hypotheses on the same dump: `CtxOk` of the start context is derived, not assumed -/
+example : CtxOk .amd64 (toCtx cfiDump.arch ⟨0x400100, 0x10008, 0x10010, [("rbx", 7), ("r12", 9)]⟩) :=
+  toCtx_ok _ _ _ (startCtx_regsOk cfiDump [cfiThread] cfi_hyps.1 cfi_hyps.2.2.1 cfiThread
+    List.mem_cons_self _ cfi_hyps.2.2.2.1)
+
 end MdModel.Index
